@@ -290,16 +290,14 @@ def fmt_like(x, like):
 NUM_BASIC = ['zero', 'neg', 'tiny', 'huge', 'nan', 'inf', 'text',
              'x0.5', 'x2', 'x0.95', 'x1.05', 'at-min', 'at-max', 'lt-min',
              'gt-max']
-EL_NUM = ['zero', 'neg', 'tiny', 'huge', 'nan', 'text', 'eqnext']
+EL_NUM = ['zero', 'neg', 'tiny', 'huge', 'nan', 'text', 'eqnext', 'x0.5', 'x2',
+          'x0.95', 'x1.05']
 # geometry keys (template keys) that take part in the double faults
 GEOM = ['Assembly/*/num_rings', 'Assembly/*/pin_pitch',
         'Assembly/*/pin_diameter', 'Assembly/*/clad_thickness',
         'Assembly/*/wire_pitch', 'Assembly/*/wire_diameter',
         'Assembly/*/duct_ftf', 'Core/length', 'Core/assembly_pitch',
         'Assembly/*/AxialRegion/*/z_lo', 'Assembly/*/AxialRegion/*/z_hi']
-GEOM_NUM2 = ['zero', 'neg', 'tiny', 'huge', 'x0.5', 'x2', 'x0.95', 'x1.05']
-GEOM_LIST2 = ['l:drop', 'l:rev', 'el0:x1.05', 'el0:x2', 'elL:x0.95',
-              'elL:x0.5', 'el0:zero', 'elL:huge']
 MATERIAL_LEAVES = ('coolant_material', 'duct_material', 'clad_material',
                    'gap_material', 'structure_material', 'pin_material')
 
@@ -784,12 +782,18 @@ def mutate(base, muts):
         e = find_entry(ents, key)
         if e is None:
             return None
-        if fault.startswith('sec:'):
-            ok = e['t'] == 'sec' and apply_sec(lines, ents, e, fault)
-        elif fault.startswith('asn:'):
-            ok = e['t'] == 'asn' and apply_asn(lines, ents, e, fault)
-        else:
-            ok = e['t'] == 'kv' and apply_kv(lines, ents, e, fault)
+        try:
+            if fault.startswith('sec:'):
+                ok = e['t'] == 'sec' and apply_sec(lines, ents, e, fault)
+            elif fault.startswith('asn:'):
+                ok = e['t'] == 'asn' and apply_asn(lines, ents, e, fault)
+            else:
+                ok = e['t'] == 'kv' and apply_kv(lines, ents, e, fault)
+        except (ArithmeticError, TypeError, AttributeError, ValueError,
+                IndexError, KeyError):
+            # the operands of a relation fault were destroyed by an earlier
+            # fault of the same case: the pair does not exist
+            ok = False
         if not ok:
             return None
     return '\n'.join(lines), files
@@ -830,13 +834,18 @@ def single_faults(base, tier):
     return out
 
 
+def _kf(*pairs):
+    return ' & '.join('%s<-%s' % p for p in pairs)
+
+
 def cases(tier):
+    """single-fault cases (deviation bound 1) of all three base inputs"""
     out = []
     for base in sorted(BASES):
         text0, files0 = base_text(base)
         seen = {_digest(text0, files0)}
-        out.append({'base': base, 'key': '-', 'tkey': '-', 'fault': 'none'})
-        singles = []
+        out.append({'base': base, 'key': '-', 'tkey': '-', 'fault': 'none',
+                    'ffam': 'none', 'kf': '-'})
         for key, tkey, fault in single_faults(base, tier):
             m = mutate(base, [(key, fault)])
             if m is None:
@@ -845,13 +854,34 @@ def cases(tier):
             if d in seen:      # no-op or same text as an earlier fault
                 continue
             seen.add(d)
-            c = {'base': base, 'key': key, 'tkey': tkey, 'fault': fault}
-            out.append(c)
-            singles.append(c)
-        if tier != 'thorough':
-            continue
-        geo = [c for c in singles if c['tkey'] in GEOM and (
-            c['fault'] in GEOM_NUM2 or c['fault'] in GEOM_LIST2)]
+            out.append({'base': base, 'key': key, 'tkey': tkey, 'fault': fault,
+                        'ffam': family(fault), 'kf': _kf((tkey, fault))})
+    return out
+
+
+DOUBLE_FAMILIES = ('zero', 'neg', 'tiny', 'huge', 'scale', 'relation', 'list',
+                   'bound')
+
+
+def double_cases(singles, results):
+    """deviation bound 2 on the geometry keys: all pairs of single faults
+    (value menu, list menu, bounds and the cross-key relations; not the plain
+    sibling eq:/swap: faults) on two different geometry keys of the same base.  Single-fault cases that are
+    themselves violations are terminal (not expanded), as error states in an
+    explicit-state search."""
+    out = []
+    for base in sorted(BASES):
+        text0, files0 = base_text(base)
+        seen = {_digest(text0, files0)}
+        geo = []
+        for c, r in zip(singles, results):
+            if c['base'] != base or c['fault'] == 'none':
+                continue
+            seen.add(_digest(*mutate(base, [(c['key'], c['fault'])])))
+            if (c['tkey'] in GEOM and c['ffam'] in DOUBLE_FAMILIES
+                    and not c['fault'].startswith(('eq:', 'swap:'))
+                    and not r['violations']):
+                geo.append(c)
         for i, a in enumerate(geo):
             for b in geo[i + 1:]:
                 if a['key'] == b['key']:
@@ -864,9 +894,40 @@ def cases(tier):
                     continue
                 seen.add(d)
                 out.append({'base': base, 'key': a['key'], 'tkey': a['tkey'],
-                            'fault': a['fault'], 'key2': b['key'],
-                            'tkey2': b['tkey'], 'fault2': b['fault']})
+                            'fault': a['fault'], 'ffam': 'double',
+                            'key2': b['key'], 'tkey2': b['tkey'],
+                            'fault2': b['fault'],
+                            'kf': _kf((a['tkey'], a['fault']),
+                                      (b['tkey'], b['fault']))})
     return out
+
+
+def family(fault):
+    """coarse family of a fault (flat scenario field `ffam`)"""
+    f = fault
+    if f.startswith('asn:bc-'):
+        f = f[7:]
+    elif f.startswith('el') and ':' in f:
+        f = f.split(':', 1)[1]
+    if f in ('nan', 'inf') or fault in ('pf:nan-coeff', 'pf:inf-coeff'):
+        return 'nonfinite'
+    if f == 'text':
+        return 'non-numeric'
+    if fault in ('dup', 'sec:dup'):
+        return 'duplicate'
+    for pre, fam in (('pf:', 'power-file'), ('asn:', 'assignment'),
+                     ('sec:', 'section'), ('l:', 'list'), ('alt:', 'option-alt'),
+                     ('b:', 'bool'), ('pool:', 'name'), ('s:', 'name'),
+                     ('o:', 'name')):
+        if fault.startswith(pre):
+            return fam
+    if f in ('zero', 'neg', 'tiny', 'huge', 'missing', 'empty', 'none', 'bogus'):
+        return {'bogus': 'name'}.get(f, f)
+    if f in ('at-min', 'at-max', 'lt-min', 'gt-max'):
+        return 'bound'
+    if re.match(r'^x[0-9.]+$', f):
+        return 'scale'
+    return 'relation'
 
 
 def _digest(text, files):
@@ -1218,11 +1279,13 @@ def run_case(c):
     r['traces'] = 1
     r['nontrivial'] = True
     r['key'] = c['base'] + ':' + _digest(text, files)
-    fam = c['fault'].split(':')[0] if ':' in c['fault'] else c['fault']
+    fam = c.get('ffam') or family(c['fault'])
     if res['cls'] == 'rejected':
         out = 'rejected@' + res['phase']
     elif res['cls'] == 'accepted':
         out = 'accepted-capped' if res['capped'] else 'accepted'
+    elif res['cls'] == 'late-exit':
+        out = 'late-exit@' + res['phase']
     else:
         out = 'unexpected:' + res['kind']
     r['outcome'] = out
@@ -1250,11 +1313,81 @@ def run_case(c):
             % (desc, res['kind'], res['phase'], res['msg']),
             out, 'rejected' if named else 'rejected or accepted', None,
             res['site']))
+    elif res['cls'] == 'late-exit' and named:
+        # error exit, but only after temperatures had been computed
+        r['violations'].append(violation(
+            'late-exit-invalid', c, '%s: input is in the named invalid class(es) %s; '
+            'the error exit came in phase %s after %d temperature calculations (%s)'
+            % (desc, ', '.join(named), res['phase'], res.get('calc_calls', 0), res['msg']),
+            out, 'rejected before any temperature is computed', None,
+            'class:' + '+'.join(named)))
     elif res['cls'] == 'accepted' and named:
         r['violations'].append(violation(
             'accepted-invalid', c, '%s: input is in the named invalid class(es) %s '
             'but was set up and swept (%d steps)' % (desc, ', '.join(named), res['steps']),
             out, 'rejected', None, 'class:' + '+'.join(named)))
+    return r
+
+
+# ----------------------------------------------------------------------
+# second clause on inputs that are valid by construction
+def valid_cases(tier):
+    out = []
+    pds = [(1.2, 'tight')] if tier == 'quick' else [(1.08, 'mid'), (1.2, 'tight'), (1.35, 'loose')]
+    for rings in (2, 3, 4):
+        for ducts in (1, 2):
+            for wire in (True, False):
+                for gap in ('none', 'no_flow', 'duct_average', 'flow'):
+                    for pd, clr in pds:
+                        out.append({'valid': 'bundle', 'rings': rings, 'ducts': ducts,
+                                    'wire': wire, 'gap': gap, 'pd': pd, 'clr': clr,
+                                    'lowfi': 'no'})
+    for model in ('simple', '6node'):
+        for gap in ('none', 'no_flow', 'duct_average', 'flow'):
+            for cf in ('calculate', 0.5):
+                out.append({'valid': 'lowfi', 'rings': 3, 'ducts': 1, 'wire': True,
+                            'gap': gap, 'pd': 1.2, 'clr': 'tight', 'lowfi': model,
+                            'cf': cf})
+    return out
+
+
+def valid_scenario(c):
+    lowfi = None if c['lowfi'] == 'no' else {'model': c['lowfi'],
+                                              'convection_factor': c['cf']}
+    d = S.design(c['rings'], pd=c['pd'], ducts=c['ducts'], wire=c['wire'],
+                 clearance=c['clr'], oftf=0.06, lowfi=lowfi)
+    pw = {'rings': c['rings'], 'nduct': c['ducts'], 'cells': [0.0, 0.1, 0.2],
+          'q': 5000.0, 'pins': 'tilt', 'duct': 'uniform', 'cool': 'uniform',
+          'axial': ['up', 'down']}
+    return S.single(d, 0.35 * S.n_pins(c['rings']) ** 0.9, length=0.2, power=pw,
+                    gap_model=c['gap'],
+                    bypass_fraction=0.05 if c['gap'] == 'flow' else 0.0)
+
+
+def run_valid(c):
+    r = new_result()
+    with S.Built(valid_scenario(c)) as b:
+        with open(os.path.join(b.dir, 'power_0.csv')) as f:
+            files = {'power_0.csv': f.read()}
+        text = b.text
+    res = execute(text, files)
+    r['states'] = res['objs'] + res['steps']
+    r['transitions'] = res['steps']
+    r['traces'] = 1
+    r['nontrivial'] = True
+    out = {'accepted': 'accepted-capped' if res['capped'] else 'accepted',
+           'rejected': 'rejected@' + res['phase'],
+           'late-exit': 'late-exit@' + res['phase']}.get(
+               res['cls'], 'unexpected:%s' % res['kind'])
+    r['outcome'] = out
+    r['info'] = {'outcome': out, 'msg': res['msg'], 'steps': res['steps'],
+                 'planes': res['planes']}
+    if res['cls'] != 'accepted':
+        r['violations'].append(violation(
+            'valid-not-accepted' if res['cls'] != 'unexpected' else res['kind'], c,
+            'valid generated input %s: %s in phase %s (%s)'
+            % (c, out, res['phase'], res['msg']), out, 'accepted', None,
+            res['site'] or ('SystemExit@' + res['phase'])))
     return r
 
 
@@ -1272,7 +1405,9 @@ def main(run):
                 'user-power CSV menu (thorough: plus all pairs of geometry faults on two '
                 'different geometry keys); mutants whose text equals the base or an '
                 'earlier mutant are dropped at enumeration; a case is non-trivial when '
-                'the real DASSH_Input was called on a text that differs from the base')
+                'the real DASSH_Input was called on a text that differs from the base; '
+                'part `valid`: every tuple of the stated design grid (rings, ducts, wire, '
+                'gap model, P/D, low-fidelity model) as a single-assembly input')
     run.assumptions = [
         'membership of a named invalid class is decided by the harness from the mutated '
         'text with the plain definitions of the statement (bundle flat-to-flat '
@@ -1286,6 +1421,12 @@ def main(run):
     run.check_determinism(run_case, cs[0])
     budget = 40 if run.tier == 'quick' else 60
     results = run.explore('faults', cs, run_case, budget_s=budget, chunksize=4)
+    if run.tier == 'thorough':
+        cs2 = double_cases(cs, results)
+        results = results + run.explore('double-faults', cs2, run_case,
+                                        budget_s=budget, chunksize=8)
+        cs = cs + cs2
+    run.explore('valid', valid_cases(run.tier), run_valid, budget_s=budget)
     # vacuity: every outcome class and every named class must have occurred
     seen = {}
     for r in results:
@@ -1310,6 +1451,13 @@ def main(run):
 
 def replay(body):
     c = body['scenario']
+    if 'valid' in c:
+        r = guarded(run_valid, c, 600)
+        for v in r['violations']:
+            print('VIOLATION property=C18 replay=(inline) kind=%s site=%s %s'
+                  % (v['kind'], v.get('site'), v['what']))
+        print('outcome', r['outcome'], r.get('info'))
+        return 1 if r['violations'] else 0
     r = guarded(run_case, c, 600)
     m = mutate(c['base'], _muts(c)) if 'base' in c else None
     if m:
